@@ -176,6 +176,13 @@ def modepages(chk, mini=False):
             b = pre + random.Random(chk.seed).sample(b, 600 - len(pre))
         beh += b
         r.prints = []
+    if not mini:
+        # the core state space without the history (TLC VIEW): every reachable target state and every kind of transition,
+        # for histories of any length - the state invariants and action properties hold unboundedly at design level
+        ru = tlc.run("ModePages", "MC_ModePages_unbounded.cfg", workers=8, timeout=2400, name="c13ub")
+        if not ru.ok:
+            raise tlc.TLCFailure("ModePages.tla (unbounded, VIEW) violated %s\n%s" % (ru.violated, ru.counterexample[:1500]))
+        ev.tlc("ModePages/MC_ModePages_unbounded.cfg (core states under VIEW, histories of any length)", ru)
     for cfg in (() if mini else ("Sim_ModePages_iscsi.cfg", "Sim_ModePages_sgio.cfg")):
         rs = tlc.run("ModePages", cfg, workers=1, timeout=1800, name="c13mpsim", simulate="num=%d" % (60 if chk.quick else 4000),
                      extra=["-depth", "40", "-seed", str(chk.seed + 23)])
